@@ -2,12 +2,13 @@
 from core import Ob, Wrapper
 
 ASSUMPTIONS = [
-    'ASSUMED, not proved: mul_mod and pow_mod return the exact residue (only `result < n` and call-site preconditions are under contract: symbolic x symbolic '
-    'modular multiplication is outside every installed back end, DESIGN.md 4.1)',
-    'ASSUMED: Baillie-PSW has no 64-bit counterexample (published computational result); find_prime_factor returns a prime; gcd, is_perfect_square, jacobi_symbol '
-    'functional correctness; the Selfridge search returns D.mag < 2^31 (data invariant of LucasDParameter in every contract that takes one)',
+    'PROVED (lemma-instance obligations C12.exact.*; nonlinear arithmetic as uninterpreted functions, every arithmetic fact an instance of a lemma that Lean 4 + Mathlib accept in the same run): '
+    'mul_mod and pow_mod return the exact residue and no product wraps; gcd, is_perfect_square, multiplicity are exact; jacobi_symbol_positive_numerator is start * (a|n) with Mathlib\'s jacobiSym as the specification',
+    'ASSUMED: Baillie-PSW has no 64-bit counterexample (published computational result), i.e. miller_rabin / strong_lucas classify correctly; the Lucas sequence steps compute U_k, V_k (only ranges and '
+    'call-site preconditions are under contract); find_pollard_rho_factor returns a divisor; the Selfridge search returns D.mag < 2^31 (data invariant of LucasDParameter in every contract that takes one)',
+    'trusted base of the lemma route: the term printer of vf/lemma.py (one term -> C instance and Lean statement), Lean\'s kernel, Mathlib\'s definitions of Nat.gcd, Nat.sqrt, jacobiSym; CBMC\'s treatment of '
+    '__CPROVER_uninterpreted_* symbols as functions',
     'termination is proved only where a decreases clause is given',
-    'mul_mod: the product a*leftover (mod.hh:67) is ASSUMED not to wrap (leftover < n/a needs nonlinear reasoning no installed back end completed); the other 14 sub-obligations of mul_mod are discharged',
     'mag<a>()*mag<b>() == mag<a*b>() is type-level: not applicable']
 
 M = {
